@@ -1,6 +1,7 @@
 (* Lemmas about Model/Dialer.v (properties C10 -- dialer clauses -- and C11). *)
 From Coq Require Import Lia ZifyBool.
-From CR Require Import Model.Dialer gen.ExtDialer.
+From CR Require Import Model.Dialer.
+From CR Require Import gen.ExtDialer.
 Local Open Scope Z_scope.
 
 Lemma ext_constants :
